@@ -15,8 +15,9 @@ import (
 )
 
 // Native fuzzing "behind the findings": the targets first parse the payload with a strict reference parser of the wire
-// format and only hand it to the broker when every length prefix is truthful and every key / value / id has at least
-// its fixed size - i.e. when it lies outside every listed finding. Whatever passes that filter must be handled without
+// format and only hand it to the broker when every length prefix is truthful - i.e. when it lies outside the one listed
+// finding that remains (trusted length prefixes). Short keys, values and ids are in scope since the corresponding
+// defects were repaired. Whatever passes that filter must be handled without
 // a panic (the call runs on the fuzz goroutine, so a panic is observable), and the canary must keep being served.
 
 type rd struct {
@@ -77,26 +78,21 @@ func strictState(data []byte) bool {
 		for j := uint64(0); j < count; j++ {
 			k := r.bytes(r.uvarint())
 			v := r.bytes(r.uvarint())
-			if !r.ok || len(v) < 16 {
+			if !r.ok {
 				return false
 			}
+			_ = k
 			switch tb[0] {
-			case 0: // subscription: peer(8) conn(8) ssid(>=1 word)
-				if len(k) < 20 {
-					return false
-				}
-				// value payload: binary-encoded {User, Channel}: two length-prefixed strings, or empty
-				if p := v[16:]; len(p) > 0 {
+			case 0:
+				// value payload of a subscription: binary-encoded {User, Channel}: two length-prefixed strings, or empty
+				if len(v) > 16 {
+					p := v[16:]
 					pr := &rd{b: p, ok: true}
 					pr.bytes(pr.uvarint())
 					pr.bytes(pr.uvarint())
 					if !pr.ok {
 						return false
 					}
-				}
-			case 2:
-				if len(k) < 16 {
-					return false
 				}
 			}
 		}
@@ -121,11 +117,11 @@ func strictFrame(data []byte) bool {
 		r.bytes(r.uvarint())
 		r.bytes(r.uvarint())
 		r.uvarint()
-		if !r.ok || len(id) < 24 {
+		if !r.ok {
 			return false
 		}
-		if binary.BigEndian.Uint32(id[16:20]) == 0 {
-			return false // system contract: survey traffic
+		if len(id) >= 20 && binary.BigEndian.Uint32(id[16:20]) == 0 {
+			return false // system contract: survey traffic (handlers with their own, length-prefixed payload formats)
 		}
 	}
 	return r.ok && len(r.b) == 0
